@@ -33,9 +33,11 @@ var (
 )
 
 type Violation struct {
-	Sig    string          `json:"sig"`
-	Msg    string          `json:"msg"`
-	Replay json.RawMessage `json:"replay"`
+	Sig     string          `json:"sig"`
+	Msg     string          `json:"msg"`
+	Replay  json.RawMessage `json:"replay"`
+	Worker  string          `json:"worker,omitempty"`  // part of the check that found it (empty: the main part)
+	Flavour string          `json:"flavour,omitempty"` // build flavour of that part
 }
 
 type ShardResult struct {
@@ -389,10 +391,11 @@ func buildWorker(flavour string, race bool) (string, error) {
 // ---------------------------------------------------------------- running
 
 type checkMeta struct {
-	Flavour string `json:"flavour"`
-	Race    bool   `json:"race"`
-	Shards  int    `json:"shards"`
-	Level   string `json:"level"`
+	Flavour string   `json:"flavour"`
+	Race    bool     `json:"race"`
+	Shards  int      `json:"shards"`
+	Level   string   `json:"level"`
+	Also    []string `json:"also"` // further parts of the same check, possibly in another build flavour
 }
 
 func workerMeta(bin, id, tier string) (checkMeta, error) {
@@ -631,6 +634,58 @@ func runCheck(id, tier string) int {
 		return 2
 	}
 	m := merge(rs)
+	// further parts of the same check (other build flavours); their results are merged
+	partBin := map[string]string{}
+	for _, sub := range meta.Also {
+		sm, err := workerMeta(probe, sub, tier)
+		if err != nil {
+			fmt.Fprintf(os.Stderr, "vcheck: %v\n", err)
+			return 2
+		}
+		sbin, err := buildWorker(sm.Flavour, false)
+		if err != nil {
+			fmt.Fprintf(os.Stderr, "vcheck: build error (infrastructure, not a verdict):\n%v\n", err)
+			return 2
+		}
+		partBin[sub] = sbin
+		sn := sm.Shards
+		if sn <= 0 {
+			sn = 1
+		}
+		srs, err := runShards(sbin, sub, tier, sn)
+		if err != nil {
+			fmt.Fprintf(os.Stderr, "vcheck: %v\n", err)
+			return 2
+		}
+		pm := merge(srs)
+		for i := range pm.Violations {
+			pm.Violations[i].Worker, pm.Violations[i].Flavour = sub, sm.Flavour
+		}
+		m.Evaluations += pm.Evaluations
+		m.Distinct += pm.Distinct
+		m.States += pm.States
+		m.Transitions += pm.Transitions
+		m.Traces += pm.Traces
+		m.Samples = append(m.Samples, pm.Samples...)
+		m.Violations = append(m.Violations, pm.Violations...)
+		m.Exhaustive = m.Exhaustive && pm.Exhaustive
+		m.Notes = append(m.Notes, pm.Notes...)
+		for k, v := range pm.Counters {
+			m.Counters[sub+":"+k] += v
+		}
+		for k, v := range pm.Outcomes {
+			m.Outcomes[sub+": "+k] += v
+		}
+		if m.Bounds == nil {
+			m.Bounds = map[string]any{}
+		}
+		for k, v := range pm.Bounds {
+			m.Bounds[sub+":"+k] = v
+		}
+		m.Rule += " || PART " + sub + " (" + sm.Flavour + " flavour): " + pm.Rule
+		m.Assumptions = append(m.Assumptions, pm.Assumptions...)
+		m.Shards += pm.Shards
+	}
 	// optional free-running race companion
 	if meta.Race {
 		rbin, err := buildWorker("plain", true)
@@ -687,8 +742,13 @@ func runCheck(id, tier string) int {
 	for _, s := range newOrder {
 		nv := newBySig[s]
 		rp := map[string]any{"property": id, "tier": tier, "sig": nv.v.Sig, "msg": nv.v.Msg, "flavour": meta.Flavour, "case": nv.v.Replay, "cases_with_this_signature": nv.n}
+		bin, id := bin, id // the part that found it re-runs it
+		if nv.v.Worker != "" {
+			rp["worker"], rp["flavour"] = nv.v.Worker, nv.v.Flavour
+			bin, id = partBin[nv.v.Worker], nv.v.Worker
+		}
 		js, _ := json.MarshalIndent(rp, "", " ")
-		path := filepath.Join(verifDir, "replays", fmt.Sprintf("%s-%s.json", id, sha(s)[:12]))
+		path := filepath.Join(verifDir, "replays", fmt.Sprintf("%s-%s.json", rp["property"], sha(s)[:12]))
 		os.WriteFile(path, js, 0o644)
 		// confirm by replay (twice)
 		ok1, sig1, ok2, sig2 := true, nv.v.Sig, true, nv.v.Sig
@@ -701,10 +761,10 @@ func runCheck(id, tier string) int {
 		}
 		confirmed := ok1 && ok2 && sig1 == nv.v.Sig && sig2 == nv.v.Sig
 		if !confirmed {
-			fmt.Printf("NOTE property=%s signature %q did not reproduce identically on replay (got %q,%q)\n", id, nv.v.Sig, sig1, sig2)
+			fmt.Printf("NOTE property=%s signature %q did not reproduce identically on replay (got %q,%q)\n", rp["property"], nv.v.Sig, sig1, sig2)
 			m.Notes = append(m.Notes, fmt.Sprintf("violation %q did not reproduce identically on replay (%q,%q)", nv.v.Sig, sig1, sig2))
 		}
-		fmt.Printf("VIOLATION property=%s replay=%s\n", id, path)
+		fmt.Printf("VIOLATION property=%s replay=%s\n", rp["property"], path)
 		fmt.Printf("  sig=%s cases=%d\n  %s\n", nv.v.Sig, nv.n, nv.v.Msg)
 		vioRecords = append(vioRecords, map[string]any{"sig": nv.v.Sig, "msg": nv.v.Msg, "cases": nv.n, "replay": path, "reproduced": confirmed})
 		exit = 1
@@ -728,6 +788,7 @@ func replayCrash(bin, id, path, wantSig string) (bool, string) {
 }
 
 var lastReplayMsg string
+var lastReplayNotes []string
 
 func replayOnce(bin, id, path string) (bool, string) {
 	out := path + fmt.Sprintf(".%d.out", os.Getpid())
@@ -747,6 +808,7 @@ func replayOnce(bin, id, path string) (bool, string) {
 	}
 	rb, _ := os.ReadFile(path)
 	json.Unmarshal(rb, &want)
+	lastReplayNotes = r.Notes
 	for _, v := range r.Violations {
 		if v.Sig == want.Sig {
 			lastReplayMsg = v.Msg
@@ -767,6 +829,7 @@ func replay(path string) int {
 	}
 	var rp struct {
 		Property string `json:"property"`
+		Worker   string `json:"worker"`
 		Flavour  string `json:"flavour"`
 		Sig      string `json:"sig"`
 	}
@@ -780,12 +843,19 @@ func replay(path string) int {
 	if err != nil {
 		die(2, "build: %v", err)
 	}
-	ok, sig := replayOnce(bin, rp.Property, path)
+	wid := rp.Property
+	if rp.Worker != "" {
+		wid = rp.Worker
+	}
+	ok, sig := replayOnce(bin, wid, path)
 	if ok {
 		fmt.Printf("VIOLATION property=%s replay=%s\n  reproduced sig=%s\n  %s\n", rp.Property, path, sig, lastReplayMsg)
 		return 1
 	}
 	fmt.Printf("replay of %s: no violation (recorded sig %s)\n", path, rp.Sig)
+	for _, n := range lastReplayNotes {
+		fmt.Println("  note:", n)
+	}
 	return 0
 }
 
